@@ -577,6 +577,10 @@ class Program:
                 if isinstance(v, ast.Call) and ast.unparse(v.func) in ("NewType", "typing.NewType"):
                     return self.const_value(mod, expr.args[0], cls, depth + 1)
             return UNKNOWN
+        if isinstance(expr, ast.Attribute) and expr.attr == "__class__" and isinstance(expr.value, ast.Constant) and expr.value.value is None:
+            return type(None)
+        if isinstance(expr, ast.Name) and expr.id in _BUILTIN_TYPES and mod.ns.get(expr.id) is None:
+            return _BUILTIN_TYPES[expr.id]
         if isinstance(expr, (ast.Name, ast.Attribute)):
             if isinstance(expr, ast.Name) and cls is not None:
                 ca = cls.find_class_attr(expr.id)
@@ -675,6 +679,8 @@ class Program:
             if a.kwarg is not None:
                 sig.swallows_unknown = True
 
+
+_BUILTIN_TYPES = {"int": int, "float": float, "str": str, "bytes": bytes, "bool": bool, "list": list, "tuple": tuple, "dict": dict}
 
 UNKNOWN = type("UNKNOWN", (), {"__repr__": lambda s: "UNKNOWN"})()
 
